@@ -39,7 +39,7 @@ def main():
             bad = (o.verdict != "discharged") != o.expect_refuted
             if a.v or bad:
                 print(f"   {'!!' if bad else '  '} {o.verdict:10s} {o.backend or '':8s} {o.time:6.2f}s {o.id}  [{o.where}] {o.note[:100]}")
-                if bad and o.model:
+                if bad and getattr(o, "model", None):
                     print("        model:", {k: v for k, v in list(o.model.items())[:12]})
                 if bad and o.verdict == "undecided":
                     print("        reason:", (o.raw or "")[:200])
